@@ -1,9 +1,15 @@
 """Obligation bookkeeping, known-findings protocol, evidence writer."""
 import json
 import os
+import re
 import time
 
 VERIF = os.path.dirname(os.path.dirname(os.path.dirname(os.path.abspath(__file__))))
+
+
+def norm_key(key):
+    """closure indices are positional (a reordering refactor renumbers them): keys name the enclosing function only"""
+    return re.sub(r"\{closure#\d+\}", "{closure}", key)
 
 
 class Check:
@@ -21,13 +27,14 @@ class Check:
         self.notes = []
         self.analysed_functions = set()
         self.t0 = time.time()
+        self.config = "default"  # cargo feature configuration being analysed
 
     # -- obligations ----------------------------------------------------
     def ok(self, rule, key, where, detail, by="rule"):
-        self.obs.append(dict(rule=rule, key=f"{rule}/{key}", status="discharged", by=by, where=where, detail=detail))
+        self.obs.append(dict(rule=rule, key=norm_key(f"{rule}/{key}"), status="discharged", by=by, where=where, detail=detail))
 
     def bad(self, rule, key, where, detail, path=None):
-        o = dict(rule=rule, key=f"{rule}/{key}", status="violated", by="rule", where=where, detail=detail)
+        o = dict(rule=rule, key=norm_key(f"{rule}/{key}"), status="violated", by="rule", where=where, detail=detail)
         if path:
             o["path"] = path
         self.obs.append(o)
@@ -41,8 +48,8 @@ class Check:
 
     def floor(self, rule, count, floor, what):
         """Fail closed when a rule matched fewer instances than were confirmed by hand."""
-        self.instances[rule] = dict(count=count, floor=floor, what=what)
-        if count < floor:
+        self.instances[rule if self.config == "default" else f"{rule}@{self.config}"] = dict(count=count, floor=floor, what=what)
+        if count < floor and self.config == "default":
             self.bad(
                 rule,
                 "anchor-missing",
@@ -73,7 +80,7 @@ def finish(chk, prog, explanation, trusted_base, assumptions, seed=0, extra=None
     """Apply the known-findings protocol, write evidence, print verdict lines.
     Returns the process exit code."""
     known = load_known()
-    kf = {k["key"]: k for k in known.get("findings", []) if k["property"] == chk.pid}
+    kf = {norm_key(k["key"]): k for k in known.get("findings", []) if k["property"] == chk.pid}
     violated = [o for o in chk.obs if o["status"] == "violated"]
     new = []
     seen_known = set()
